@@ -129,9 +129,9 @@ def structFirstPipe : Sp → Bool
   | .pipe x _ => isStructSp x || structFirstPipe x
   | _ => false
 
-/-- usable as an ARGUMENT of a typedpy field (`Array[·]`, `Map[·, ·]`, `AnyOf[·, ·]`, `Tuple[·, ·]`): everything but a
-    Structure-first PEP 604 union (finding `pep604-structure-first-nested`: RecursionError) -/
-def itemOk (s : Sp) : Bool := !structFirstPipe s
+/-- usable as an ARGUMENT of a typedpy field (`Array[·]`, `Map[·, ·]`, `AnyOf[·, ·]`, `Tuple[·, ·]`): everything (a
+    Structure-first PEP 604 union used to be excluded: finding `pep604-structure-first-nested`, fixed in typedpy 4d54fb6) -/
+def itemOk (_s : Sp) : Bool := true
 
 /-- a Field or a Structure class: what `items=` and a plain assignment are documented to take -/
 def isFieldOrStruct (s : Sp) : Bool := isFieldExpr s || isStructSp s
@@ -176,8 +176,7 @@ def supported (tm : TypeMap) : Sp → Bool
   | .bareBuiltin c | .bareTyping c | .bareCls c | .bareInst c => c != .tuple
   | .pep585 _ x | .typingG _ x => supported tm x
   | .sub _ x => supported tm x && itemOk x
-  /- `Tuple(items=Owner)` is the finding `tuple-items-structure-class` -/
-  | .call c x => supported tm x && (isFieldExpr x || (isStructSp x && c != .tuple))
+  | .call _ x => supported tm x && isFieldOrStruct x
   | .dictBare | .tDictBare | .mapBare | .mapInst => true
   | .dict585 k v | .dictTyping k v => supported tm k && supported tm v
   | .mapSub k v => supported tm k && supported tm v && itemOk k && itemOk v
@@ -185,7 +184,7 @@ def supported (tm : TypeMap) : Sp → Bool
   | .scls d _ => isStructDecl d
   | .tup585 x y | .tupTyping x y => supported tm x && supported tm y
   | .tupSub x y => supported tm x && supported tm y && itemOk x && itemOk y
-  | .tupCall x y => supported tm x && supported tm y && isFieldExpr x && isFieldExpr y
+  | .tupCall x y => supported tm x && supported tm y && isFieldOrStruct x && isFieldOrStruct y
   | .optional x => supported tm x && !unionLike x
   /- `None` may be either member (`Union[None, int]`, `AnyOf[None, Integer]`, `None | int`) -/
   | .union x y =>
@@ -285,13 +284,11 @@ inductive ClassSame : List FieldSp → List FieldSp → Prop where
   | nil : ClassSame [] []
   | cons {a b : FieldSp} {as bs : List FieldSp} : FieldSame a b → ClassSame as bs → ClassSame (a :: as) (b :: bs)
 
-/-- string annotations are claimed to behave like evaluated ones unless: the annotation is quoted AND the
-    module has the future import (finding `quoted-under-future-import`); it is quoted, 50 or more characters
-    long, without the import (finding `quoted-annotation-50`); or its names live in an enclosing function
-    (`string-annotation-enclosing-scope`, a limitation of string annotations themselves) -/
+/-- string annotations (future import, quoted, or both; of any length) are claimed to behave like evaluated ones
+    unless their names live in an enclosing function (`string-annotation-enclosing-scope`, a limitation of string
+    annotations themselves) -/
 def stringOk (sc : Scope) (future : Bool) (fs : FieldSp) : Bool :=
-  !(fs.mode == .ann && fs.quoted && (future || decide (50 ≤ annLenField fs)))
-  && !(stringAnn future fs && sc == .enclosing && fs.unresolved)
+  !(stringAnn future fs && sc == .enclosing && fs.unresolved)
 
 def fieldSupportedAt (O : Oracles) (tm : TypeMap) (sc : Scope) (future : Bool) (fs : FieldSp) : Bool :=
   fieldSupported O tm future fs && stringOk sc future fs
@@ -301,33 +298,66 @@ def classSupported (O : Oracles) (tm : TypeMap) (c : ClassSp) : Bool :=
 
 /-! ### typing's flattening of directly nested unions -/
 
-/-- documented (typing): "Unions of unions are flattened" - the alternatives of a tree of `Union[…]` / `Optional[…]`,
-    left to right; a leaf contributes its own meaning, `None` the NoneField -/
+/-! the general union tree: `Union[…]`, `Optional[…]` and PEP 604 `|` between non-field operands -/
+
+/-- what kind of Python object an operand of `|` is, as far as the operator is concerned -/
+inductive UKind where | plain | typing | fcls | none | bad
+deriving Repr, DecidableEq
+
+/-- Python's `l | r` for non-field operands: a `typing` object on either side gives a `typing.Union`; plain types,
+    `None` and Field classes among themselves a `types.UnionType`; `None | None` and the rest are TypeErrors -/
+def pipeKind : UKind → UKind → UKind
+  | .typing, .typing | .typing, .plain | .typing, .none | .typing, .fcls => .typing
+  | .plain, .typing => .typing
+  | .plain, .plain | .plain, .none | .plain, .fcls => .plain
+  | .none, .typing => .typing
+  | .none, .plain | .none, .fcls => .plain
+  | _, _ => .bad
+
+def leafKind (s : Sp) : UKind :=
+  if isNoneLit s then .none
+  else if plainSp s then .plain
+  else match s with
+    | .bareTyping _ | .tDictBare | .typingG _ _ | .dictTyping _ _ | .tupTyping _ _ => .typing
+    | .fcls _ | .bareCls _ | .mapBare => .fcls
+    | _ => .bad
+
+def nodeKind : Sp → UKind
+  | .optional _ | .union _ _ => .typing
+  | .pipe x y => if isFieldExpr x then .bad else pipeKind (nodeKind x) (nodeKind y)
+  | s => leafKind s
+
 def flatAlts : Sp → List FieldDecl
   | .optional x => flatAlts x ++ [.noneF]
   | .union x y => flatAlts x ++ flatAlts y
+  | .pipe x y => if isFieldExpr x then [denote (.pipe x y)] else flatAlts x ++ flatAlts y
   | .noneLit => [.noneF]
   | s => [denote s]
 
-def isUnionTree : Sp → Bool
-  | .optional _ | .union _ _ => true
-  | _ => false
-
-/-- the leaves are supported spellings that are not themselves unions (or `None`) -/
 def leavesOk (tm : TypeMap) : Sp → Bool
   | .optional x => leavesOk tm x
   | .union x y => leavesOk tm x && leavesOk tm y
+  | .pipe x y =>
+    if isFieldExpr x then supported tm (.pipe x y)
+    else leavesOk tm x && leavesOk tm y && pipeKind (nodeKind x) (nodeKind y) != .bad
   | .noneLit => true
   | s => supported tm s && !unionLike s
 
-/-- the typing-level objects of the leaves, left to right -/
 def flatObjs (tm : TypeMap) : Sp → List Obj
   | .optional x => flatObjs tm x ++ [.noneTy]
   | .union x y => flatObjs tm x ++ flatObjs tm y
+  | .pipe x y =>
+    if isFieldExpr x then (match ev tm (.pipe x y) with | .ok o => [o] | .error _ => [])
+    else flatObjs tm x ++ flatObjs tm y
   | .noneLit => [.noneTy]
   | s => match ev tm s with
     | .ok o => [o]
     | .error _ => []
+
+def isUnionTree : Sp → Bool
+  | .optional _ | .union _ _ => true
+  | .pipe x _ => !isFieldExpr x
+  | _ => false
 
 /-- no two of the objects are `==` (typing would skip the redundant one) -/
 def allDistinct : List Obj → Bool
